@@ -462,6 +462,14 @@ def rule_r8(prog, res):
               'C05', c05.rule_r2, prog, Result)
 
 
+def rule_r10(prog, res):
+    from . import c15
+    from ..report import Result
+    res.share('R10', 'fields added later reach every reader: the flattened '
+              'type info memo is cleared completely (C15-R2)', 'C15',
+              c15.rule_r2, prog, Result)
+
+
 def rule_r9(prog, res):
     from . import c05, c12
     from ..report import Result
@@ -482,6 +490,7 @@ def run(prog, res, tier):
     res.run_rule(rule_r7, prog, res)
     res.run_rule(rule_r8, prog, res)
     res.run_rule(rule_r9, prog, res)
+    res.run_rule(rule_r10, prog, res)
 
 
 _M = 'spyne/interface/xml_schema/model.py'
